@@ -12,6 +12,8 @@ THEOREMS = [
     "XmlDiffModel.C16_semantic_reconstructs",
     "XmlDiffModel.C16_diff_and_clean",
     "XmlDiffModel.C16_join_keeps_both_texts",
+    "XmlDiffModel.C16_realign_keeps_texts",
+    "XmlDiffModel.C16_realign_after_do_tree",
 ]
 PARTIAL = {
     "C16_nonempty": "NOT proved: absence of empty segments (it is false of the vendored engine in line mode: known finding E1); decided per run by "
@@ -19,9 +21,11 @@ PARTIAL = {
     "can be encoded as characters; without line mode: unbounded), every fuel and every behaviour of diff_bisect (any split point or "
     "none - this covers the deadline): diff_main (prefix/suffix trimming, substring shortcut, half match, line mode with its re-diff "
     "loop, bisection), diff_cleanupMerge (both passes) and diff_cleanupSemantic (elimination, lossless shift, overlap extraction) "
-    "reconstruct the first text from equal+delete and the second from equal+insert; join keeps both texts. The realign step is modelled "
-    "in XmlFormat and compared with the code (U8/U9); its reconstruction up to open/close placeholders is checked by the oracle, not "
-    "proved.",
+    "reconstruct the first text from equal+delete and the second from equal+insert; join keeps both texts; and the re-balancing step "
+    "(_realign_placeholders), for every table a history of do_tree calls on one maker builds, every segment list and every stack, "
+    "keeps both reconstructions up to opening / closing placeholders whenever it returns (C16_realign_keeps_texts, "
+    "C16_realign_after_do_tree). The realign model is compared with the code (U8/U9) and the table hypothesis (every opening entry "
+    "records a closing entry's placeholder) is checked on the real maker in every realign case.",
 }
 LEAN_MODULES = ["XmlDiffModel.Props.C16"]
 SOURCES = ["formatting.XMLFormatter._realign_placeholders", "formatting.XMLFormatter._join_delete_insert", "formatting.XMLFormatter._make_diff_tags"]
@@ -230,6 +234,13 @@ def _realign_chunk(seed, lo, hi, extra):
             except AssertionError:
                 st.failures.append({"sig": "C16/realign-assertion", **desc})
                 continue
+            # hypothesis `Closed` of C16_realign_keeps_texts on the real table
+            p2t = f.placeholderer.placeholder2tag
+            for ph, e in p2t.items():
+                if e.ttype == formatting.T_OPEN and not (e.close_ph in p2t and p2t[e.close_ph].ttype == formatting.T_CLOSE):
+                    st.disagreements.append({"unit": "U8realign", "real": f"open entry {ord(ph):#x} without closing entry",
+                                             "model": "Closed (hypothesis of C16_realign_keeps_texts)", **desc})
+                    break
             # both reconstructions survive up to open / close placeholders
             oc = {ph for ph, e in f.placeholderer.placeholder2tag.items() if e.ttype in (formatting.T_OPEN, formatting.T_CLOSE)}
             strip = lambda s: "".join(c for c in s if c not in oc)  # noqa
